@@ -32,6 +32,7 @@ func rulesC06(c *Ctx) {
 	ruleStreamForwards(c, "MODIFY-FORWARDS", "Modify", "ModifyResponse")
 	ruleOpResultID(c)
 	rulePendingWriters(c)
+	ribFamily(c, famSel{heldOnly: true}) // an AddXXX says "not done, no error" (= hold the operation) only where the gate said not yet
 }
 
 // R6.1
@@ -571,7 +572,23 @@ func readsOnlyImmutableConfig(c *Ctx, fi *FuncInfo, e ast.Expr) bool {
 			okAll = false
 		case *ast.SelectorExpr:
 			id, ok := ast.Unparen(x.X).(*ast.Ident)
-			if ok && recv != nil && info.ObjectOf(id) == recv {
+			var root types.Object
+			if ok {
+				root = info.ObjectOf(id)
+				// the receiver of a spliced-in helper is bound to the caller's receiver
+				for hops := 0; hops < 3 && root != nil && root != recv; hops++ {
+					v, isVar := root.(*types.Var)
+					if !isVar || v.IsField() {
+						break
+					}
+					def := soleDefinition(info, fi.Decl, v)
+					if def == nil {
+						break
+					}
+					root = objOfIdent(info, def)
+				}
+			}
+			if ok && recv != nil && root == recv {
 				if fv, ok := info.ObjectOf(x.Sel).(*types.Var); ok && fv.IsField() && c.P.fieldWriteOnce(fv) {
 					any = true
 					return false
